@@ -3,7 +3,7 @@
 # Applies the patch inside the scratch worktree, runs ./check <prop> against that worktree
 # (VERIF_REPO), restores the worktree. /repo is not touched.
 WT=$1; P=$2; PROP=$3; TIER=${4:-quick}
-git -C $WT checkout -q -- . && git -C $WT apply $P || { echo "TRIAL apply failed"; exit 2; }
+git -C $WT checkout -q -- . && git -C $WT checkout -q --detach main && git -C $WT apply $P || { echo "TRIAL apply failed"; exit 2; }
 cd /verif && VERIF_REPO=$WT timeout 3000 ./check $PROP --tier $TIER; RC=$?
 git -C $WT checkout -q -- .
 echo "TRIAL prop=$PROP patch=$P rc=$RC"
